@@ -35,9 +35,12 @@ pub struct Precision {
     pub variant_free: bool,
     /// absolute slack in units (eval_i64 real-valued functions: within 1)
     pub abs_slack: i64,
+    /// number of tolerance-checked (inexact) operations on the way to the result: their errors compound, so a fixed
+    /// tolerance decides the result only when there are few of them
+    pub inexact_ops: u32,
 }
 impl Default for Precision {
-    fn default() -> Self { Precision { tol: 0.0, zero_sign_free: false, variant_free: false, abs_slack: 0 } }
+    fn default() -> Self { Precision { tol: 0.0, zero_sign_free: false, variant_free: false, abs_slack: 0, inexact_ops: 0 } }
 }
 
 /// flags accumulated during one evaluation
@@ -58,11 +61,13 @@ pub struct Flags {
     pub inexact_div: Cell<bool>,
     /// the evaluation only decides a scope predicate (C15): the guards that protect tolerance comparisons are off
     pub scope_only: Cell<bool>,
+    pub inexact_ops: Cell<u32>,
 }
 impl Flags {
-    pub fn inexact(&self, tol: f64) { if tol > self.tol.get() { self.tol.set(tol); } }
+    pub fn inexact(&self, tol: f64) { if tol > self.tol.get() { self.tol.set(tol); } self.inexact_ops.set(self.inexact_ops.get() + 1); }
     pub fn precision(&self) -> Precision {
-        Precision { tol: self.tol.get(), zero_sign_free: self.zero_sign_free.get(), variant_free: self.variant_free.get(), abs_slack: self.abs_slack.get() }
+        Precision { tol: self.tol.get(), zero_sign_free: self.zero_sign_free.get(), variant_free: self.variant_free.get(), abs_slack: self.abs_slack.get(),
+                    inexact_ops: self.inexact_ops.get() }
     }
 }
 
